@@ -15,4 +15,15 @@ LEVEL = {
         note="Trusted: Lean kernel; axioms ⊆ {propext, Classical.choice, Quot.sound}; hand-written model tied by differential "
              "testing; exact-arithmetic semantics for f64; finite arguments only (NaN excluded by the property).",
     ),
+    "C02": dict(
+        text="Theorem history_refines: every call history over {generate_step with any buffer, synthesized_frames, generate_all} on the "
+             "generator model yields exactly the observations of the specification machine 'cursor into the one-shot waveform' — by induction over "
+             "the history, for any frame count, buffer sizes and any vocoder whose frames yield fperiod samples; corollaries: chunk concatenation = "
+             "one-shot, exhausted step returns 0 and writes nothing, generate_all = remaining suffix. The model is tied to src/speech.rs by running "
+             "the same state machine (vocoder abstracted as the implementation's own one-shot transcript) against real generators on exhaustive short "
+             "and random long histories, bitwise. The defect found (generate_all after a step panicked) is repaired in /repo (fix: ed3d9ae) and kept as "
+             "a theorem about the pinned indexing.",
+        note="Trusted: Lean kernel; axioms ⊆ {propext, Classical.choice, Quot.sound}; hand-written model tied by differential testing; the real "
+             "vocoder is abstracted by its transcript (its determinism and frame length are observed, not proved).",
+    ),
 }
